@@ -358,12 +358,12 @@ def gen_refusal_targeted(rng):
     return g.inp()
 
 
-def gen_burst(rng):
+def gen_burst(rng, big=True):
     """many copies in a row (10, 50 or 200) at one stage of the life of a CON request"""
     mid = rng.randrange(65536); g = Gen(rng, mid0=mid)
     kind = rng.choice(["fast", "slow", "slow", "suppress", "fail"])
     first = g.recv(0, "CON", mid, g.token(), kind, None, g.payload())
-    n = rng.choice([10, 10, 50, 50, 200])
+    n = rng.choice([10, 10, 50, 50, 200] if big else [10, 10, 50, 50, 50])
     stage = rng.choice(["immediately", "empty-ack", "separate", "boundary"])
     if stage != "immediately": g.adv(EMPTY_ACK)
     if stage in ("separate", "boundary") and kind == "slow": g.respond(0)
@@ -503,7 +503,7 @@ class C04(fw.Property):
             "expiry by advance / split advance / single timer firings, copies at the boundary; random = event soup over small pools of mids, tokens, peers; "
             "adversarial = the same with pings, responses, ACK/RST-typed requests, reserved codes and token reuse colliding with live mids; "
             "refusal = scenario scripts with the transport refusing datagrams to single peers from inside send() and asynchronous transport errors "
-            "(MessageManager.dispatch_error) at random places; burst = 10/50/200 copies in a row at one stage; cached = a "
+            "(MessageManager.dispatch_error) at random places; burst = 10/50 (thorough: also 200) copies in a row at one stage; cached = a "
             "resource returning one response object for every request (defect fixed in 75465d6). Per 20 cases: 8 scenario, 3 lifetime, 3 random, 2 adversarial, "
             "3 refusal, 1 burst / cached / race (race, oracle only: original and copies dispatched in one loop turn before the handler task starts). "
             "thorough adds enum = every script of length <= 3 over 7 symbols and of length 4 over 5 symbols (1024 scripts) on one key. "
@@ -539,7 +539,7 @@ class C04(fw.Property):
             elif x < 14: yield "random", gen_random(rng)
             elif x < 16: yield "adversarial", gen_random(rng, adversarial=True)
             elif x < 19: yield "refusal", gen_refusal(rng)
-            else: yield [("burst", gen_burst(rng)), ("cached", gen_cached(rng)), ("burst", gen_burst(rng)), ("race", gen_race(rng))][(k // 20) % 4]
+            else: yield [("burst", gen_burst(rng, tier == "thorough")), ("cached", gen_cached(rng)), ("burst", gen_burst(rng, tier == "thorough")), ("race", gen_race(rng))][(k // 20) % 4]
         if tier == "thorough":
             # exhaustive small scope (validation of the tie, not a proof): every script of length <= 3 over 7 symbols and of
             # length 4 over 5 symbols; one key of peer 0 (slow and fast copy), the same mid from peer 1, the two clock
